@@ -51,6 +51,7 @@ type RaceAccess struct {
 	Kind   string   `json:"kind"`
 	Frames []string `json:"frames"` // "func file:line"
 	Repo   string   `json:"repo"`   // innermost function of the module under test, "" if none
+	harness bool
 }
 
 type RaceReport struct {
@@ -143,7 +144,7 @@ func (e *Env) RunOpt(p *plan.Plan, wallCap time.Duration, eventLog string, gomax
 		cmd.Env = append(cmd.Env, "VERIF_EVENTLOG="+eventLog)
 	}
 	if p.Kernel == "race" {
-		cmd.Env = append(cmd.Env, "GORACE=log_path="+filepath.Join(dir, "race")+" halt_on_error=0 history_size=5")
+		cmd.Env = append(cmd.Env, "GORACE=log_path="+filepath.Join(dir, "race")+" halt_on_error=0 history_size=5 atexit_sleep_ms=0")
 	}
 	var stderr bytes.Buffer
 	cmd.Stdout = &stderr
@@ -244,8 +245,16 @@ func parseRaceLog(log, modPath, scratch string) []RaceReport {
 					}
 					loc = strings.TrimPrefix(loc, scratch+"/")
 					cur.Frames = append(cur.Frames, fn+" "+loc)
-					if cur.Repo == "" && strings.HasPrefix(fn, modPath) {
-						cur.Repo = fn
+					// the access belongs to the library if, walking outwards from the
+					// innermost frame, a frame of the module under test comes before
+					// any frame of the harness (an access made by the harness's own
+					// monitor sits on top of library frames but is not the library's)
+					if cur.Repo == "" && !cur.harness {
+						if strings.HasPrefix(fn, "verifsim/") || strings.HasPrefix(fn, "verifsim.local/") {
+							cur.harness = true
+						} else if strings.HasPrefix(fn, modPath) {
+							cur.Repo = fn
+						}
 					}
 					i++
 				}
@@ -288,7 +297,7 @@ func prepare(scratch string, needRace, needPlain bool) (*Env, error) {
 	if err != nil {
 		return nil, fmt.Errorf("prepare.sh: %v\n%s", err, out)
 	}
-	env := &Env{Scratch: scratch, Sites: map[int]Site{}}
+	env := &Env{Scratch: scratch, Sites: map[int]Site{}, Uncontrol: []string{}}
 	mp, _ := os.ReadFile(filepath.Join(scratch, "modpath"))
 	env.ModPath = strings.TrimSpace(string(mp))
 	for _, f := range []string{"sites-repo.json", "sites-chardet.json"} {
